@@ -459,6 +459,61 @@ theorem rollNone_inBounds (s : Shape) (hs : Pos s) (shift : Int) (h1 : -(prod s 
   rw [h3]
   exact indices_inShape hs _
 
+/-- the per-axis shift bound of the element theorems: `|shifts[i]| ≤ s[ks[i]]` -/
+def RollDom (s : Shape) (ks : List Nat) (shifts : List Int) : Prop :=
+  ∀ (i k : Nat) (sh : Int), ks[i]? = some k → shifts[i]? = some sh → ∃ n : Nat, s[k]? = some n ∧ -(n : Int) ≤ sh ∧ sh ≤ (n : Int)
+
+/-- several axes: accepted (each in `[-dim, dim)`) ⇒ the view exists with the source shape -/
+theorem rollAxes_shape (s : Shape) (shifts axes : List Int) (ks : List Nat) (hk : AxesNorm s.length axes ks) :
+    ∃ v, rollAxesView s shifts axes = some v ∧ v.src = s ∧ v.dst = s := by
+  simp [rollAxesView, shapeRoll_of_axesNorm s axes ks hk]
+
+/-- several pairwise distinct axes, one shift each (`|shift| ≤ extent`): every listed axis `j = ks[i]` reads
+    `(d[j] - shifts[i]) mod s[j]`, every other coordinate is copied — NumPy's element -/
+theorem rollAxes_elem (s : Shape) (shifts axes : List Int) (ks : List Nat) (hk : AxesNorm s.length axes ks)
+    (hlen : shifts.length = axes.length) (hnd : ks.Nodup) (hdom : RollDom s ks shifts)
+    (v : IxView) (hv : rollAxesView s shifts axes = some v) (d : Idx) (hd : InShape d s) :
+    ∃ r, v.map d = some r ∧ r.length = d.length ∧
+      ∀ j, (j ∉ ks → r[j]? = d[j]?) ∧
+        (∀ (i : Nat) (sh : Int), ks[i]? = some j → shifts[i]? = some sh →
+          ∃ n x : Nat, s[j]? = some n ∧ d[j]? = some x ∧ r[j]? = some (rollSrc n x sh)) := by
+  simp only [rollAxesView, shapeRoll_of_axesNorm s axes ks hk, Option.map_some, Option.some.injEq] at hv
+  subst hv
+  obtain ⟨r, hr, hrl, hspec⟩ := indexRollLoop_spec s d hd axes ks shifts d hk hlen hdom rfl
+  refine ⟨r, by simp [indexRollU, hr], hrl, fun j => ⟨(hspec j).1, (hspec j).2 hnd⟩⟩
+
+theorem rollAxes_inBounds (s : Shape) (shifts axes : List Int) (ks : List Nat) (hk : AxesNorm s.length axes ks)
+    (hlen : shifts.length = axes.length) (hnd : ks.Nodup) (hdom : RollDom s ks shifts)
+    (v : IxView) (hv : rollAxesView s shifts axes = some v) : v.InBounds := by
+  obtain ⟨w, hw, h3, h4⟩ := rollAxes_shape s shifts axes ks hk
+  rw [hv] at hw; simp only [Option.some.injEq] at hw; subst hw
+  intro d hd i hi
+  rw [h4] at hd
+  rw [h3]
+  obtain ⟨r, hr, hrl, hspec⟩ := rollAxes_elem s shifts axes ks hk hlen hnd hdom v hv d hd
+  rw [hr] at hi
+  simp only [Option.some.injEq] at hi
+  subst hi
+  have hl := hd.length_eq
+  rw [inShape_iff_forall]
+  refine ⟨by omega, ?_⟩
+  intro j h1 h2
+  have hdj := ((inShape_iff_forall _ _).1 hd).2 j (by omega) h2
+  by_cases hj : j ∈ ks
+  · obtain ⟨i, hi, hij⟩ := List.getElem_of_mem hj
+    have hks := hk.length_eq
+    have hish : i < shifts.length := by omega
+    obtain ⟨n, x, hn, hx, hrj⟩ := (hspec j).2 i shifts[i] (by simp [hi, hij]) (by simp [hish])
+    have e1 : s[j] = n := by simpa [h2] using hn
+    have e2 : r[j] = rollSrc n x shifts[i] := by simpa [h1] using hrj
+    rw [e1, e2]
+    exact rollSrc_lt n x _ (by omega)
+  · have := (hspec j).1 hj
+    have e : r[j] = d[j] := by
+      have hjd : j < d.length := by omega
+      simpa [h1, hjd] using this
+    rw [e]; exact hdj
+
 /-- the unchanged code wraps once: `roll(a, 2, axis 0)` on extent 1 reads index 2^64-1 (NumPy: `(0-2) mod 1 = 0`) -/
 theorem roll_large_shift_counterexample :
     (rollView [1] 2 0).bind (·.map [0]) ≠ some [rollSrc 1 0 2] := by decide
@@ -469,6 +524,8 @@ theorem roll_repeated_axis_counterexample :
     (rollAxesView [3] [1, 1] [0, 0]).bind (·.map [0]) ≠ some [rollSrc 3 0 (1 + 1)] := by decide
 
 example : normalizeAxis1 (-1) 2 = some 1 := by decide
+example : AxesNorm 2 [-1, 0] [1, 0] := .cons (by decide) (.cons (by decide) .nil)
+example : (rollAxesView [2, 3] [1, -2] [-1, 0]).map (·.map [1, 2]) = some (some [1, 1]) := by decide
 example : (rollView [2, 3] (-1) (-1)).map (·.map [1, 2]) = some (some [1, 0]) := by decide
 example : rollSrc 3 2 (-1) = 0 := by decide
 example : (rollNoneView [2, 3] 1).map (·.map [1, 0]) = some (some [0, 2]) := by decide
